@@ -467,6 +467,30 @@ theorem groups_perm_of_groupOf_eq (gs gs' : List (κ × List β))
 
 end GroupBy
 
+/-- in an association list with distinct keys, the rows carrying the key of a member are that member alone -/
+theorem filter_key_of_nodup {κ : Type} [DecidableEq κ] {γ : Type} (gs : List (κ × γ)) (h : (gs.map Prod.fst).Nodup) (a : κ × γ) (ha : a ∈ gs) :
+    gs.filter (fun b => b.1 = a.1) = [a] := by
+  induction gs with
+  | nil => cases ha
+  | cons g rest ih =>
+    simp only [List.map_cons, List.nodup_cons] at h
+    rcases List.mem_cons.mp ha with rfl | ha'
+    · have hnone : rest.filter (fun b => decide (b.1 = a.1)) = [] := by
+        rw [List.filter_eq_nil_iff]
+        intro b hb hk
+        exact h.1 (List.mem_map.mpr ⟨b, hb, of_decide_eq_true hk⟩)
+      simp [hnone]
+    · have hne : g.1 ≠ a.1 := fun e => h.1 (e ▸ List.mem_map.mpr ⟨a, ha', rfl⟩)
+      simp [hne, ih h.2 ha']
+
+theorem flatMap_eq_map_of_singleton {α β : Type} (l : List α) (f : α → List β) (g : α → β)
+    (h : ∀ a ∈ l, f a = [g a]) : l.flatMap f = l.map g := by
+  induction l with
+  | nil => rfl
+  | cons a l ih =>
+    rw [List.flatMap_cons, List.map_cons, h a List.mem_cons_self, ih (fun b hb => h b (List.mem_cons_of_mem _ hb))]
+    rfl
+
 /-! ## maps that may panic, keyed maps -/
 
 section MapAll
@@ -610,6 +634,19 @@ theorem mapAll_keyed_keys (g : α → Option κ) (v : α → β) (xs : List α) 
           rcases List.mem_cons.mp hx' with rfl | hx'
           · simp [hg]
           · exact i3 x' hx'
+
+/-- a map that returns wherever `f` returns (and the same value) returns on every list `f` returns on -/
+theorem mapAll_mono {α β : Type} (f f' : α → Option β) (h : ∀ x y, f x = some y → f' x = some y)
+    (xs : List α) (ys : List β) (hm : mapAll f xs = some ys) : mapAll f' xs = some ys := by
+  rw [mapAll_eq_some_iff] at hm ⊢
+  induction xs generalizing ys with
+  | nil => simpa using hm
+  | cons x xs ih =>
+    cases ys with
+    | nil => simp at hm
+    | cons y ys =>
+      simp only [List.map_cons, List.cons.injEq] at hm ⊢
+      exact ⟨h x y hm.1, ih ys hm.2⟩
 
 end MapAll
 
